@@ -48,7 +48,9 @@ def scenario_inputs(sc):
     lens = [4, 4, 4] if sc["length_header"] != "none" else [3, 1, 2]
     cases = [[T("o%d_%d" % (i, k)) for k in range(lens[i])] for i in range(n)]
     labels = [T("c1"), T("c0"), T("c0")]
-    kw = {"problem_name": T("pname"), "univariate": sc["univariate"] == "yes"}
+    kw = {"problem_name": T("pname")}
+    if sc["univariate"] != "yes":
+        kw["univariate"] = False  # "yes" relies on the writer's documented default (univariate=True)
     if sc["class_label"] == "present":
         kw["class_label"] = [T("c0"), T("c1")]
         kw["class_value_list"] = list(labels)
@@ -472,6 +474,21 @@ def rule_parsers(ctx, repo):
                   "parsed instances %s differ from the file's %s" % (_short(got_rows), _short(rows)), loc)
         ctx.check(norm_labels(y) == labs if hasattr(y, "data") else None, "R4", fname + ":labels", "labels in instance order",
                   "parsed labels %s differ from the file's %s" % (norm_labels(y) if hasattr(y, "data") else y, labs), loc)
+    # .arff without a class attribute (has_class_labels=False): the whole line is the series
+    fn = repo.func(IO, ARFF)
+    arff_nl = "@relation %s\n" % T("pname") + "".join("@attribute att%d numeric\n" % k for k in range(length)) + "@data\n" \
+        + "\n".join(",".join(o) for o in obs)
+    vfs = M.VFS(by_basename={"u.arff": arff_nl})
+    c = ARFF + ":unlabelled"
+    try:
+        r = Interp(repo, M.make_externals(vfs), M.to_float, M.str_hook).call_entry(mod, fn, ["u.arff"], {"has_class_labels": False})
+        ctx.check(isinstance(r, M.FrameV) and list(r.cols) == ["dim_0"] and list(r.cols["dim_0"]) == rows, "R4", c,
+                  "unlabelled file: every line is one instance, all values kept",
+                  "an .arff file without class attribute is parsed as %s, expected %s" % (_short(r), _short(rows)), ctx.loc(mod, fn))
+    except Undecided as e:
+        ctx.undecided("R4", c, str(e), ctx.loc(mod, fn))
+    except PyRaise as e:
+        ctx.violation("R4", c, "raises %s on a well-formed unlabelled file" % exc_text(e), ctx.loc(mod, fn))
     # single-frame forms: the same frame plus one label column, named consistently across the parsers
     names = {}
     for fname in (READER, ARFF, TSV):
